@@ -112,11 +112,17 @@ func checkC10(tier, replay string) int {
 			for _, fl := range []uint32{0, 1, 2, 3} {
 				for _, lm := range []bool{false, true} {
 					scripts = append(scripts, tsyncScript{Phases: v, Flags: fl, LoaderMain: lm, NNP: len(v)%2 == 0})
+					if len(v) <= 2 && fl&1 != 0 {
+						// a thread with a private filter: the kernel refuses thread-sync; nil is only acceptable if everyone is covered
+						scripts = append(scripts, tsyncScript{Phases: v, Flags: fl, LoaderMain: lm, NNP: true, Divergent: true})
+						// the same policy was already loaded without thread-sync on the loader: the sync load must still cover everyone
+						scripts = append(scripts, tsyncScript{Phases: v, Flags: fl, LoaderMain: lm, NNP: len(v)%2 == 1, Preload: true})
+					}
 				}
 			}
 		}
 	}
-	var children, threadsChecked, probes, phaseVerified, spawnedDuring int64
+	var children, threadsChecked, probes, phaseVerified, spawnedDuring, refused int64
 	parallelFor(len(scripts), func(i int) {
 		sc := scripts[i]
 		var rep tsyncReport
@@ -133,6 +139,10 @@ func checkC10(tier, replay string) int {
 			return
 		}
 		key := fmt.Sprintf("flags=%d", sc.Flags)
+		if rep.Err != nil && sc.Divergent {
+			atomic.AddInt64(&refused, 1)
+			return // refusal reported as an error: nothing to check
+		}
 		if rep.Err != nil {
 			ctx.Violation("C10:load-failed:"+key, fmt.Sprintf("LoadFilter failed in a process without other filters: %s (phases %v)", *rep.Err, sc.Phases), sc)
 			return
@@ -155,7 +165,7 @@ func checkC10(tier, replay string) int {
 				if t.ProbeErrno != 1 || t.Seccomp != 2 || t.Filters < 1 {
 					ctx.Violation("C10:thread-not-covered:"+t.Phase, fmt.Sprintf("thread-sync load returned nil but thread %d (phase %s, /proc before load: %s, born after: %v) is not filtered: probe errno %d, Seccomp %d, filters %d; phases %v flags %d", t.Tid, t.Phase, t.PhaseSeen, t.BornAfter, t.ProbeErrno, t.Seccomp, t.Filters, sc.Phases, sc.Flags), sc)
 				}
-			} else if !t.BornAfter {
+			} else if !t.BornAfter && !(sc.Divergent && t.Tid == rep.Threads[0].Tid) {
 				if t.ProbeErrno != 0 || t.Seccomp != 0 || t.Filters != 0 {
 					ctx.Violation("C10:other-thread-touched:"+t.Phase, fmt.Sprintf("load without thread-sync changed thread %d (phase %s): probe errno %d, Seccomp %d, filters %d", t.Tid, t.Phase, t.ProbeErrno, t.Seccomp, t.Filters), sc)
 				}
@@ -166,10 +176,10 @@ func checkC10(tier, replay string) int {
 			if tsync && (o.Seccomp != 2 || o.Filters < 1) {
 				ctx.Violation("C10:scan-thread-not-covered", fmt.Sprintf("after a thread-sync load thread %d (%s) has Seccomp=%d filters=%d", o.Tid, o.Role, o.Seccomp, o.Filters), sc)
 			}
-			if !tsync && o.Tid == rep.LoaderTid && o.Filters != 1 {
+			if !tsync && o.Tid == rep.LoaderTid && o.Filters < 1 {
 				ctx.Violation("C10:loader-not-filtered", "loader thread has no filter after a nil return", sc)
 			}
-			if !tsync && o.Role != "loader" && o.Role != "other" && !strings.HasPrefix(o.Role, "born-after") && o.Filters != 0 {
+			if !tsync && !sc.Divergent && o.Role != "loader" && o.Role != "other" && !strings.HasPrefix(o.Role, "born-after") && o.Filters != 0 {
 				ctx.Violation("C10:other-thread-touched:scan", fmt.Sprintf("load without thread-sync: thread %d (%s) has %d filters", o.Tid, o.Role, o.Filters), sc)
 			}
 		}
@@ -206,6 +216,7 @@ func checkC10(tier, replay string) int {
 	ctx.Cov["threads_whose_phase_was_confirmed_in_proc_before_the_load"] = phaseVerified
 	ctx.Cov["short_lived_threads_spawned_while_loading"] = spawnedDuring
 	ctx.Cov["single_bit_flag_words_checked"] = bits
+	ctx.Cov["thread_sync_refusals_reported_as_error"] = refused
 	ctx.Cov["rule"] = "states = (vector of user-visible phases of N other OS threads at the moment of the load: spinning, in nanosleep, blocked in read, blocked in futex, spawning short-lived threads) x flags {0,tsync,log,tsync|log} x loader on main / non-main thread; every vector for N<=2 (quick) / N<=3 (thorough) and homogeneous + mixed vectors for N=8 (and 64 thorough); each is run once on the real kernel through the real LoadFilter; after an atomic 'load returned' flag every thread (including three born afterwards) probes getppid and reads its own /proc status, and /proc/self/task is scanned; plus all 32 single-bit flag words observed at the syscall seam and, for the defined bits, in strace's decoding of seccomp(2)"
 	ctx.Assumptions = []string{"the interleaving of seccomp(2) with other threads inside the kernel cannot be scheduled from user space; one run per phase vector", "phase of blocked threads is confirmed through /proc/<tid>/syscall immediately before the load is released"}
 	return ctx.Finish()
